@@ -10,12 +10,15 @@ package main
 
 import (
 	"encoding/json"
+	"fmt"
 	"math/rand"
 	"os"
 	"path/filepath"
 	"runtime"
+	"strconv"
 	"sync"
 	"sync/atomic"
+	"time"
 
 	"github.com/tobgu/qframe"
 )
@@ -138,4 +141,50 @@ func (x *Exec) runConcurrent(sc *Scenario, st *Step) {
 			x.emit(ev)
 		}
 	}
+}
+
+// Step watchdog. Every operation of a scenario completes in milliseconds; one that is still running after
+// VERIF_STEP_LIMIT seconds (default 120) is hung inside the library. The scenario executed so far is
+// written to the in-flight file and the process exits with status 97, so that the runner can execute the
+// scenario again and decide whether the hang recurs.
+var (
+	wdMu    sync.Mutex
+	wdScn   *Scenario
+	wdID    int
+	wdStep  int
+	wdSince time.Time
+)
+
+func watchStep(sc *Scenario, id, step int) {
+	wdMu.Lock()
+	wdScn, wdID, wdStep, wdSince = sc, id, step, time.Now()
+	wdMu.Unlock()
+}
+
+func unwatchStep() {
+	wdMu.Lock()
+	wdScn = nil
+	wdMu.Unlock()
+}
+
+func init() {
+	limit := 120 * time.Second
+	if v := os.Getenv("VERIF_STEP_LIMIT"); v != "" {
+		if n, err := strconv.Atoi(v); err == nil && n > 0 {
+			limit = time.Duration(n) * time.Second
+		}
+	}
+	go func() {
+		for {
+			time.Sleep(time.Second)
+			wdMu.Lock()
+			sc, id, step, since := wdScn, wdID, wdStep, wdSince
+			wdMu.Unlock()
+			if sc != nil && time.Since(since) > limit {
+				noteInflight(sc, id)
+				fmt.Fprintf(os.Stderr, "VERIF-HANG scenario %d step %d: no result after %v\n", id, step, limit)
+				os.Exit(97)
+			}
+		}
+	}()
 }
